@@ -22,7 +22,10 @@ commit for finding F-C14-overflow the Rust code computes over `BigInt`, so this 
          products of a diagonal divisibility chain, and are what the Spec computes; hence the
          MAIN STATEMENT `abelian_invariants_correct`: model output = Spec list, for every
          presentation over `±1 … ±n`;
-  §8     all invariance clauses of the property, unconditionally.
+  §8     all invariance clauses of the property, unconditionally;
+  §9     the group meaning in Mathlib's own terms: `Abelianization (PresentedGroup R)` is `ℤⁿ` modulo
+         the row lattice of the relation matrix, and is isomorphic to the product of the cyclic
+         groups `ZMod d`, `d` running over the returned list (`ZMod 0 = ℤ`).
 
 Vocabulary:
   `Inv.InRange n g`      letter of a presentation on n generators: g ≠ 0 ∧ |g| ≤ n
@@ -32,8 +35,13 @@ Vocabulary:
   `Inv.zpat f`           zero pattern `f.map (· = 0)`
   `Inv.Rect mat n m`     n rows, each of length m
   `Inv.toMatrix mat n m` the Mathlib `Matrix (Fin n) (Fin m) ℤ` with entries `mat[r][c]`
+  `CosetP.relSet n rels` `{wordElt n r | r ∈ rels} ⊆ FreeGroup (Fin n)` (Proofs/CosetAction.lean)
+  `Inv.relMat n rels`    the relation matrix as `Matrix (Fin rels.length) (Fin n) ℤ`
+  `Inv.rowSpan A`        the subgroup `{c ᵥ* A}` of `Fin n → ℤ` spanned by the rows of `A`
+  `Inv.ZL L`             `(j : Fin L.length) → ZMod (L.get j)`, the product of the cyclic groups
 -/
 import DSymVerif.Proofs.InvariantsMeta
+import DSymVerif.Proofs.InvariantsGroupMain
 import DSymVerif.Proofs.InvariantsBound
 import Mathlib.Data.List.Forall2
 
@@ -457,5 +465,48 @@ example :
   rw [List.mem_singleton] at hu
   subst hu
   exact RelProd.mul _ _ (RelProd.mem _ (by simp)) (RelProd.mem _ (by simp))
+
+/-! ## 9. the group the list describes -/
+
+/-- the abelianisation of `⟨x₁ … xₙ | rels⟩` is `ℤⁿ` modulo the lattice spanned by the
+    exponent-sum vectors of the relators (for all words, in range or not) -/
+theorem abelianization_is_row_quotient (n : Nat) (rels : List (List Int)) :
+    Nonempty (Abelianization (PresentedGroup (CosetP.relSet n rels)) ≃*
+      Multiplicative ((Fin n → ℤ) ⧸ rowSpan (relMat n rels))) :=
+  ⟨AddEquiv.toMultiplicativeRight (abelianizationEquivQuot n rels)⟩
+
+/-- the first sentence of the property in Mathlib's terms: the list the Spec defines — which is the
+    list the model returns (`abelian_invariants_correct`) — is the list of invariant factors of the
+    abelianised group: `Abelianization ⟨x₁ … xₙ | rels⟩ ≅ Π_{d ∈ list} ZMod d`, `ZMod 0 = ℤ`. -/
+theorem abelianization_is_expected (n : Nat) (rels : List (List Int))
+    (hin : ∀ w ∈ rels, ∀ g ∈ w, InRange n g) :
+    Nonempty (Abelianization (PresentedGroup (CosetP.relSet n rels)) ≃*
+      Multiplicative (ZL (SpecC14.expected n rels))) :=
+  abelianization_equiv_expected n rels hin
+
+/-- the same for the list returned by the model of `abelian_invariants` -/
+theorem abelianization_is_returned_list (n : Nat) (rels : List (List Int)) (out : List Nat)
+    (hin : ∀ w ∈ rels, ∀ g ∈ w, InRange n g) (h : abelianInvariants n rels = .ok out) :
+    Nonempty (Abelianization (PresentedGroup (CosetP.relSet n rels)) ≃* Multiplicative (ZL out)) := by
+  rw [abelian_invariants_correct n rels hin] at h
+  injection h with h
+  subst h
+  exact abelianization_equiv_expected n rels hin
+
+/-- free abelian case: `k` zeros mean `ℤᵏ` -/
+theorem abelianization_free_of_expected (n k : Nat) (rels : List (List Int))
+    (hin : ∀ w ∈ rels, ∀ g ∈ w, Inv.InRange n g)
+    (h : SpecC14.expected n rels = List.replicate k 0) :
+    Nonempty (Abelianization (PresentedGroup (CosetP.relSet n rels)) ≃*
+      Multiplicative (Fin k → ℤ)) :=
+  abelianization_free n k rels hin h
+
+/-- non-vacuity: the commutator presentation of `ℤ²` -/
+example : (∀ w ∈ ([[1, 2, -1, -2]] : List (List Int)), ∀ g ∈ w, InRange 2 g) ∧
+    SpecC14.expected 2 [[1, 2, -1, -2]] = List.replicate 2 0 ∧
+    abelianInvariants 2 [[1, 2, -1, -2]] = .ok [0, 0] := by
+  have h1 : ∀ w ∈ ([[1, 2, -1, -2]] : List (List Int)), ∀ g ∈ w, InRange 2 g := by decide
+  have h2 : SpecC14.expected 2 [[1, 2, -1, -2]] = List.replicate 2 0 := by decide +kernel
+  exact ⟨h1, h2, by rw [abelian_invariants_correct 2 _ h1, h2]; rfl⟩
 
 end DSymVerif.C14
